@@ -85,7 +85,7 @@ TESTED_NOT_PROVED = [
     "graph_to_rsmi / its_to_rsmi / gml_to_smart: modelled up to the two RWMol handed to RDKit (observed on the real call by a spy on "
     "graph_to_smi / GraphToMol.graph_to_mol); what RDKit writes from them is not modelled",
 ]
-LEVEL_TEXT = ("Machine-checked proof (Coq, 53 theorems, closed under the global context) over an executable model of the GML writer/reader at "
+LEVEL_TEXT = ("Machine-checked proof (Coq, 56 theorems, closed under the global context) over an executable model of the GML writer/reader at "
               "record level, of its_to_gml / gml_to_its / smart_to_gml / get_rc / its_decompose / ITSGraph at graph level, of h_to_explicit / "
               "h_to_implicit, and of the attribute copying of MolToGraph / GraphToMol: label round trip for every element symbol and every "
               "charge; ITS -> GML -> ITS restores atoms, both-side charges and (before, after) orders for every reaction-centre-shaped ITS, "
@@ -1952,7 +1952,7 @@ def _rand_record(rng):
         rng.shuffle(secs)
     if rng.random() < 0.1:
         secs.append(rng.choice([0, 1, 2]))
-    ids = list(range(1, rng.randint(2, 6)))
+    ids = list(range(rng.choice([0, 1, 1]), rng.randint(2, 6)))
     labels = ["C", "N+", "O-", "Cl", "Fe3+", "S2-", "C2", "*", "c1", "+", "C+-", "Na+", "H", "H+", "X", "Mg12+", "O-2", ""]
     for s in secs:
         es = []
@@ -2304,9 +2304,15 @@ def gen_cases(tier, rng):
         z = rng.random()
         if z < 0.15:        # another rule name (positional call): the name line must not disturb the reader
             case["rule_name"] = rng.choice(["R-17", "left over", "x]", "my context rule", "node 7", "", "rule [", "a b\tc"])
-        elif z < 0.30:      # ids with 3-5 digits
-            mul, off = rng.choice([(97, 1000), (1, 99), (1009, 7), (10, 0)])
-            ren = {i: i * mul + off for i, _ in g["nodes"]}
+        elif z < 0.36:      # ids with 3-5 digits, or 0-based ids (node id 0 is falsy)
+            mul, off = rng.choice([(97, 1000), (1, 99), (1009, 7), (10, 0), (0, 0), (0, 0)])
+            if mul == 0:
+                order = sorted(i for i, _ in g["nodes"])
+                ren = {i: order.index(i) for i in order}
+                if any(c[1] and c[2] for c in cfgs):      # reindex + explicit_hydrogen on 0-based ids: lossy (see notes), keep it apart
+                    cfgs = case["cfgs"] = [c for c in cfgs if not (c[1] and c[2])] or [[True, False, False]]
+            else:
+                ren = {i: i * mul + off for i, _ in g["nodes"]}
             case["its"] = {"nodes": [[ren[i], dict(a, atom_map=ren[i])] for i, a in g["nodes"]],
                            "edges": [[ren[u], ren[v], a] for u, v, a in g["edges"]]}
             case["name"] = "its-bigids/%d" % k
